@@ -42,6 +42,7 @@ type Report struct {
 	Distinct    map[uint64]struct{} // digests of distinct non-trivial cases
 	Samples     []any
 	Counters    map[string]int // fault kinds fired, reach probes, ...
+	Sets        map[string]map[uint64]struct{} // named sets of digests, reported as distinct_<name>
 	Extra       map[string]any
 	Assumptions []string
 	Components  map[string]string
@@ -58,12 +59,20 @@ type Violation struct {
 
 func NewReport(prop, tier string, seed int64, level string) *Report {
 	return &Report{Prop: prop, Tier: tier, Seed: seed, Level: level, Start: time.Now(),
-		Distinct: map[uint64]struct{}{}, Counters: map[string]int{}, Extra: map[string]any{},
+		Distinct: map[uint64]struct{}{}, Counters: map[string]int{}, Sets: map[string]map[uint64]struct{}{}, Extra: map[string]any{},
 		Components: map[string]string{}}
 }
 
 func (r *Report) Count(k string, n int) { r.Counters[k] += n }
 func (r *Report) Nontrivial(d uint64)   { r.Distinct[d] = struct{}{} }
+
+// SetAdd records a digest in a named set (e.g. distinct interleavings, distinct shapes).
+func (r *Report) SetAdd(name string, d uint64) {
+	if r.Sets[name] == nil {
+		r.Sets[name] = map[uint64]struct{}{}
+	}
+	r.Sets[name][d] = struct{}{}
+}
 func (r *Report) Sample(s any, max int) {
 	if len(r.Samples) < max {
 		r.Samples = append(r.Samples, s)
@@ -78,6 +87,11 @@ func (r *Report) Merge(o *Report) {
 	}
 	for k, v := range o.Counters {
 		r.Counters[k] += v
+	}
+	for name, set := range o.Sets {
+		for d := range set {
+			r.SetAdd(name, d)
+		}
 	}
 	for _, s := range o.Samples {
 		r.Sample(s, 6)
@@ -130,6 +144,9 @@ func (r *Report) Finish() int {
 		}
 	}
 	cov["counters"] = cnt
+	for name, set := range r.Sets {
+		cov["distinct_"+name] = len(set)
+	}
 	cov["unreached"] = unreached
 	cov["components"] = r.Components
 	if wall > 0 {
